@@ -74,16 +74,13 @@ econf_getExtValue(econf_file *kf, const char *group,
   char *value_string = NULL;
   getStringValueNum(*kf, num, &value_string);
 
-  char buf[BUFSIZ];
+  char *buf = value_string; /* copy of the value, of any length */
   char *line;
   size_t n_del = 0;
 
   (*result)->values = NULL;
 
   if (value_string!=NULL) {
-    strncpy(buf,value_string,BUFSIZ-1);
-    buf[BUFSIZ-1] = '\0';
-    free(value_string);
     value_string = trim(buf);
 
     if (value_string[0] == '\"')
@@ -91,6 +88,7 @@ econf_getExtValue(econf_file *kf, const char *group,
       /* one quoted string only */
       (*result)->values = realloc ((*result)->values, sizeof (char*) * ++n_del);
       if ((*result)->values == NULL) {
+        free(buf);
         econf_freeExtValue(*result);
         return ECONF_NOMEM; /* memory allocation failed */
       }
@@ -100,12 +98,14 @@ econf_getExtValue(econf_file *kf, const char *group,
       while ((line = strsep(&value_string, "\n")) != NULL) {
         (*result)->values = realloc ((*result)->values, sizeof (char*) * ++n_del);
         if ((*result)->values == NULL) {
+          free(buf);
           econf_freeExtValue(*result);
           return ECONF_NOMEM; /* memory allocation failed */
         }
         (*result)->values[n_del-1] = strdup(trim(line));
       }
     }
+    free(buf);
   }
 
   /* realloc one extra element for the last 0 */
